@@ -2,6 +2,14 @@ import Mamba.Lemmas.CanonFFinal
 import Mamba.Lemmas.CanonFTreeFinal
 import Mamba.Lemmas.CanonFPrune
 import Mamba.Lemmas.CanonFPruneLink
+import Mamba.Lemmas.CanonFPruneTree
+import Mamba.Lemmas.CanonFSorted
+import Mamba.Lemmas.CanonFMainJ
+import Mamba.Lemmas.CanonFWalk
+import Mamba.Lemmas.CanonFCovStep
+import Mamba.Lemmas.CanonFCertJ
+import Mamba.Lemmas.CanonFCovFinal
+import Mamba.Lemmas.CanonFCovGens
 import Mamba.Spec.Iso
 /-!
 # C01 / C02, pattern F — theorems about the faithful model of `graph/canonical.go` (`Mamba/Model/CanonF.lean`)
@@ -397,6 +405,256 @@ tree fact that no path extends a leaf. -/
 theorem value_bounded_partial {n : Nat} {nb : Nbrs} {cb fl : Sl Nat} {op : OP} (hnb : NbOK nb n) (hsz : nb.size = n)
     (hp : PartInv n op) (hv : VAny nb cb fl op) : op.value.len ≤ ((nb.toList.map List.length).sum) / 2 :=
   value_len_le hnb hsz hp hv
+
+/-- `partial_cert_prune_sound` — (a) at tree level: if `worseTest` holds for the certificate of the singleton prefix of a
+partition `op` (a state in which `splitBin` / the refinement aborts with "worse") whose colouring is coarser than, and
+order-compatible with, the colouring of a node `χ` of the unpruned tree (`IR.Mono`), then EVERY leaf of the unpruned tree
+below `χ` has a certificate smaller than `currentBest`. -/
+theorem partial_cert_prune_sound {n : Nat} {nb : Nbrs} (rf : Nat) (hnb : NbOK nb n) (hsz : nb.size = n) {op : OP}
+    {cb fl : Sl Nat} {χ : IR.St}
+    (hp : PartInv n op) (hps : PrefixSingle op) (hvw : op.value.WF)
+    (hval : op.value.toList = certPos nb op.order.toList op.spl)
+    (hwt : worseTest op.value cb fl = .ok true) (hcb : cb.WF) (hcbl : cb.len = ((nb.toList.map List.length).sum) / 2)
+    (hmono : IR.Mono n (colOf n op) χ.c) (hA : IR.InvA (irG n nb) χ) (hD : IR.InvD (irG n nb) χ) :
+    ∀ x, IR.CertBelow (irG n nb) rf χ x → CanonF.compare x cb.toList = -1 :=
+  worse_complete rf hnb hsz hp hps hvw hval hwt hcb hcbl hmono hA hD
+
+/-- `bins_sorted_inv`: every bin of the ordered partition stays in ascending order through `splitBin`, the refinement and
+`deage` (and holds initially, `bins_sorted_init`): the positions of the target cell enumerate `IR.cellMembers` in
+ascending order, so the children of a tree node are visited in descending order of the vertex. -/
+theorem bins_sorted_inv (n : Nat) (nb : Nbrs) :
+    OrdQ n nb BinsSorted BinsSorted BinsSorted (fun _ => True) (fun _ => True) :=
+  sortedOrdQ stablePerm n nb
+
+theorem bins_sorted_init {n m : Nat} {vc : Classes} {op : OP} (hn : 0 < n) (hc : ClassesOK n vc)
+    (h : newOrderedPartition n m vc = .ok (some op)) : BinsSorted op :=
+  new_binsSorted hn hc h
+
+/-- `mainLoop_state_inv`: the main loop carries every invariant of the whole loop state that is preserved by its thirteen
+transitions (`MainJ`: `deage`, skipped `deage`, the two Heuristic-2 skips, `splitBin` worse / not worse, pop, node step with
+the four leaf cases / inner node / worse, refinement worse / not worse); at the end the invariant holds with an empty stack. -/
+theorem mainLoop_state_inv {n m : Nat} {nb : Nbrs} {JA JN JS : List (Nat × Nat) → LS → Prop}
+    {JM : List (Nat × Nat) → Bool → LS → Prop} (hJ : MainJ n m nb JA JN JS JM)
+    (fuel : Nat) (worse : Bool) (s s' : LS) (lv : List (Nat × Nat)) (hI : MInv n m nb s)
+    (hw : s.count = 0 → worse = false) (hlv : LevelsOK s.op s.path s.choices lv) (hM : JM lv worse s)
+    (h : mainLoop nb n m fuel worse s = .ok s') : JA [] s' :=
+  mainLoopJ stablePerm hJ fuel worse s s' lv hI hw hlv hM h
+
+/-- `frame_link_inv`: the walk of the search through the unpruned tree with explicit stack frames is an invariant of the
+main loop (all thirteen transitions). With `vs` the vertices individualised along the current path and `nodeL vs L` the
+tree node of level `L`: every level of the partition is the colouring of `nodeL vs L` (`LevelsTree`), the stack frame of
+level `L` is the target cell of `nodeL vs L` with its size, and the child being explored is the `path[L]`-th member of that
+cell in ascending order (`FramesOK`; uses `bins_sorted_inv`); `WalkN` after a `deage`, `WalkS` after a `splitBin` (the
+partition is the individualised child), `WalkM` at the start of an iteration, `WalkA` at all times. -/
+theorem frame_link_inv {n m : Nat} {nb : Nbrs} {rf : Nat} {r : IR.St} (hnb : NbOK nb n) (hrf : 3 * n + 3 ≤ rf) :
+    MainJ n m nb (WalkA n nb rf r) (WalkN n nb rf r) (WalkS n nb rf r) (WalkM n nb rf r) :=
+  walkMainJ hnb hrf
+
+/-! ### the per-frame coverage invariant (`CovFrames`) through the transitions of the search
+
+`CovFrames s vs incl path choices lv`: for every stack frame every processed child `w` of the frame's node is covered
+(`CovChild`): all leaves of the unpruned tree below it have a certificate `≤ currentBest` (`Complete`), or — on the
+first-leaf path — `w` is not the representative of its class in `firstLeafOrbits`. The theorems below are the
+transitions; the orbit facts they need (`hE1`, `S`/`hS`/`horb`) are stated as hypotheses — supplying them (generators
+recorded at a node of the first- or best-leaf path fix that node) and the four leaf cases are what remains of
+`canonF_eq_IR_canon`, see notes/C01F.md. -/
+
+/-- certificate, generator and `currentBest` facts as a state-level invariant of the main loop -/
+theorem cert_state_inv {n m : Nat} {nb : Nbrs} (hnb : NbOK nb n)
+    (hlenm : ∀ o : List Nat, o.Perm (List.range n) → (certPos nb o n).length = m) :
+    MainJ n m nb (CertA n m nb) (CertN n m nb) (CertN n m nb) (CertM n m nb) :=
+  certMainJ expandValue_cert hnb hlenm
+
+/-- `firstleaf_orbit_prune_sound` (core): a vertex with the same representative in `firstLeafOrbits` as `w` lies in the
+same cell of the node `ν` and its child subtree has exactly the leaf certificates of the child subtree of `w`, provided
+the recorded generators preserve the colouring of `ν` -/
+theorem firstleaf_orbit_prune_sound {n : Nat} {nb : Nbrs} (hnb : NbOK nb n) (rf : Nat) {ν : IR.St}
+    {gens : Array (Sl Nat)} {ngens : Nat} {ds : Disjoint.DS}
+    (hgens : ∀ k, k < ngens → ∃ γ, gens[k]? = some γ ∧ IsAutL nb n γ.toList ∧
+      ∀ v, v < n → IR.col ν.c (γ.toList.getD v 0) = IR.col ν.c v)
+    (horb : ∀ a b, a < n → b < n → Disjoint.rep ds a = Disjoint.rep ds b →
+      Relation.EqvGen (GenRelA gens ngens) a b)
+    {w ρ : Nat} (hw : w < n) (hρ : ρ < n) (hrep : Disjoint.rep ds ρ = Disjoint.rep ds w) :
+    IR.col ν.c ρ = IR.col ν.c w ∧ ∀ t x, IR.CertBelow (irG n nb) rf (IR.childSt (irG n nb) rf ν t ρ) x ↔
+      IR.CertBelow (irG n nb) rf (IR.childSt (irG n nb) rf ν t w) x :=
+  deferred_root_sound hnb rf hgens horb hw hρ hrep
+
+/-- `backjump_sound` (Heuristic 1): two equal-certificate leaves below `ν`; `b`, `c` the vertices at the same position of
+the two leaves (the children of `ν` on the two paths): the subtree of `c` has exactly the leaf certificates of that of `b` -/
+theorem backjump_prune_sound {n : Nat} {nb : Nbrs} (hnb : NbOK nb n) (rf : Nat) {ν : IR.St} {o1 o2 : List Nat}
+    (h1 : o1.Perm (List.range n)) (h2 : o2.Perm (List.range n))
+    (hm1 : IR.Mono n ν.c (IR.tab n (fun v => o1.idxOf v))) (hm2 : IR.Mono n ν.c (IR.tab n (fun v => o2.idxOf v)))
+    (hc : certPos nb o1 n = certPos nb o2 n) {t b c : Nat} (hb : b < n) (hpos : o2[o1.idxOf b]? = some c) (x : List Nat) :
+    IR.CertBelow (irG n nb) rf (IR.childSt (irG n nb) rf ν t c) x ↔
+      IR.CertBelow (irG n nb) rf (IR.childSt (irG n nb) rf ν t b) x :=
+  backjump_sound hnb rf h1 h2 hm1 hm2 hc hb hpos x
+
+/-- coverage, transition "Heuristic 2 on the first-leaf path skips a child" -/
+theorem frame_coverage_skip_first {n : Nat} {nb : Nbrs} {rf : Nat} {r : IR.St} (st sz : Nat) (ls : List (Nat × Nat))
+    (s : LS) (c : Nat) (cs : List Nat) (p : Nat) (ps : List Nat) (ce : Nat) (x : Int) (k : Nat) (hc : Core n s)
+    (ht : TopOK s.op (k + 1) s.path s.choices ((st, sz) :: ls)) (hage : s.op.age + 1 = s.path.length)
+    (hch : s.choices = c :: cs) (hpth : s.path = p :: ps) (hget : s.op.order.get (c - 1) = .ok ce)
+    (hon : (decide (s.count > 0) && hasPrefix s.flPath.toList ps.reverse) = true)
+    (hx : s.flOrbits[ce]? = some x) (hx0 : x ≥ 0)
+    {vs : List Nat} (hw : WalkNv n nb rf r vs ((st, sz) :: ls) s)
+    (hcov : CovFrames n nb rf r s vs true s.path s.choices ((st, sz) :: ls)) :
+    CovFrames n nb rf r { s with choices := (c - 1) :: cs, skipDeage := true } vs true (p :: ps) ((c - 1) :: cs)
+      ((st, sz) :: ls) :=
+  cov_skipA st sz ls s c cs p ps ce x k hc ht hage hch hpth hget hon hx hx0 hw hcov
+
+/-- coverage, transition "Heuristic 2 on the best-leaf path skips a child" (`bestleaf_orbit_prune_sound` at state
+level): an orbit mate sits at a later position of the bin, it is complete, and the classes of `currentBestOrbits` are
+generated by automorphisms (`S`) that preserve the colouring of the frame's node -/
+theorem frame_coverage_skip_best {n m : Nat} {nb : Nbrs} {rf : Nat} {r : IR.St} (hnb : NbOK nb n)
+    (st sz : Nat) (ls : List (Nat × Nat)) (s : LS) (c : Nat) (cs : List Nat) (p : Nat) (ps : List Nat) (ce : Nat)
+    (bo : Disjoint.DS) (k : Nat) (hc : Core n s) (ht : TopOK s.op (k + 1) s.path s.choices ((st, sz) :: ls))
+    (hage : s.op.age + 1 = s.path.length) (hch : s.choices = c :: cs) (hpth : s.path = p :: ps)
+    (hget : s.op.order.get (c - 1) = .ok ce) (hnf : onFirstB s ps = false)
+    (hh : h2Best s.op s.bestOrbits (c - 1) ce = .ok (true, bo))
+    {vs : List Nat} (hw : WalkNv n nb rf r vs ((st, sz) :: ls) s)
+    (hcov : CovFrames n nb rf r s vs true s.path s.choices ((st, sz) :: ls))
+    (S : List Nat → Prop)
+    (hS : ∀ γ, S γ → IsAutL nb n γ ∧ ∀ u, u < n →
+      IR.col (nodeL n nb rf r vs vs.length).c (γ.getD u 0) = IR.col (nodeL n nb rf r vs vs.length).c u)
+    (hds : Disjoint.Inv s.bestOrbits) (hdsz : s.bestOrbits.size = n)
+    (horb : ∀ a b, a < n → b < n → Disjoint.rep s.bestOrbits a = Disjoint.rep s.bestOrbits b →
+      Relation.EqvGen (fun x y => ∃ γ, S γ ∧ γ[x]? = some y) a b) :
+    CovFrames n nb rf r { s with choices := (c - 1) :: cs, bestOrbits := bo, skipDeage := true } vs true (p :: ps)
+      ((c - 1) :: cs) ((st, sz) :: ls) :=
+  cov_skipB_step (m := m) hnb st sz ls s c cs p ps ce bo k hc ht hage hch hpth hget hnf hh hw hcov S hS hds hdsz horb
+
+/-- coverage, transition "`splitBin` reports worse" (partial-certificate pruning at state level) -/
+theorem frame_coverage_split_worse {n m : Nat} {nb : Nbrs} {rf : Nat} {r : IR.St} (hnb : NbOK nb n) (hsz : nb.size = n)
+    (hm : m = ((nb.toList.map List.length).sum) / 2) (hrf : 3 * n + 3 ≤ rf)
+    (hA : IR.InvA (irG n nb) r) (hD : IR.InvD (irG n nb) r)
+    (st sz : Nat) (ls : List (Nat × Nat)) (s : LS) (c : Nat) (cs : List Nat) (p : Nat) (ps : List Nat) (ce : Nat)
+    (bo : Disjoint.DS) (op' : OP) (k : Nat) (hc : Core n s) (ht : TopOK s.op (k + 1) s.path s.choices ((st, sz) :: ls))
+    (hage : s.op.age + 1 = s.path.length) (hch : s.choices = c :: cs) (hpth : s.path = p :: ps)
+    (hget : s.op.order.get (c - 1) = .ok ce)
+    (hs : splitBin nb s.currentBest s.firstLeaf s.op (c - 1) = .ok (true, op'))
+    {vs : List Nat} (hw : WalkNv n nb rf r vs ((st, sz) :: ls) s) (hcert : CertN n m nb ((st, sz) :: ls) s)
+    (hcov : CovFrames n nb rf r s vs true s.path s.choices ((st, sz) :: ls)) :
+    CovFrames n nb rf r { s with choices := (c - 1) :: cs, bestOrbits := bo, op := op', path := k :: ps } vs true
+      (k :: ps) ((c - 1) :: cs) ((st, sz) :: ls) :=
+  cov_split_worse_step hnb hsz hm hrf hA hD st sz ls s c cs p ps ce bo op' k hc ht hage hch hpth hget hs hw hcert hcov
+
+/-- coverage, transition "the refinement reports worse" -/
+theorem frame_coverage_refine_worse {n m : Nat} {nb : Nbrs} {rf : Nat} {r : IR.St} (hnb : NbOK nb n)
+    (hsz : nb.size = n) (hm : m = ((nb.toList.map List.length).sum) / 2) (hrf : 3 * n + 3 ≤ rf)
+    (hA : IR.InvA (irG n nb) r) (hD : IR.InvD (irG n nb) r)
+    (st sz : Nat) (ls : List (Nat × Nat)) (s : LS) (c : Nat) (cs : List Nat) (p : Nat) (ps : List Nat)
+    (op' : OP) (sc' sc2 : Scratch) (hc : Core n s) (htl : s.sc.timesSeen.len = n)
+    (hch : s.choices = c :: cs) (hpth : s.path = p :: ps) (hcp : c = st + p)
+    {vs : List Nat} {t v : Nat} (hw : WalkSv n nb rf r vs t v ((st, sz) :: ls) s) (hcert : CertN n m nb ((st, sz) :: ls) s)
+    (hr : refine nb s.currentBest s.firstLeaf {} s.op s.sc = .ok (true, op', sc'))
+    (hcov : CovFrames n nb rf r s vs false s.path s.choices ((st, sz) :: ls)) :
+    CovFrames n nb rf r { s with op := op', sc := sc2 } vs true (p :: ps) (c :: cs) ((st, sz) :: ls) :=
+  cov_refine_worse_step hnb hsz hm hrf hA hD st sz ls s c cs p ps op' sc' sc2 hc htl hch hpth hcp hw hcert hr hcov
+
+/-- coverage, transition "pop": all children of the top frame are processed ⇒ its node is complete (a deferred child is
+resolved through the representative of its class: `firstleaf_orbit_prune_sound`), and the child of the frame below that
+was being explored is covered -/
+theorem frame_coverage_pop {n m : Nat} {nb : Nbrs} {rf : Nat} {r : IR.St} (hnb : NbOK nb n)
+    (st sz : Nat) (ls : List (Nat × Nat)) (s : LS)
+    (ht : TopOK s.op 0 s.path s.choices ((st, sz) :: ls))
+    {vs : List Nat} (hw : WalkNv n nb rf r vs ((st, sz) :: ls) s) (hg : GInv n m nb s)
+    (hcov : CovFrames n nb rf r s vs true s.path s.choices ((st, sz) :: ls))
+    (hE1 : ∀ ps, s.path.drop 1 = ps → onFirstB s ps = true → ∀ k, k < s.ngens → ∀ γ, s.gens[k]? = some γ →
+      ∀ u, u < n → IR.col (nodeL n nb rf r vs ps.length).c (γ.toList.getD u 0) = IR.col (nodeL n nb rf r vs ps.length).c u) :
+    Complete n nb rf s.currentBest.toList (nodeL n nb rf r vs (s.path.length - 1)) ∧
+    CovFrames n nb rf r { s with path := s.path.drop 1, choices := s.choices.drop 1 } vs.dropLast true
+      (s.path.drop 1) (s.choices.drop 1) ls :=
+  cov_pop_step hnb st sz ls s ht hw hg hcov hE1
+
+/-- coverage, transitions that only change the partition (`deage`, refinement not worse), start of a child, new frame -/
+theorem frame_coverage_simple {n : Nat} {nb : Nbrs} {rf : Nat} {r : IR.St} {s : LS} {vs : List Nat} :
+    (∀ (incl : Bool) (lv : List (Nat × Nat)) (op' : OP) (sc' : Scratch) (b : Bool),
+      CovFrames n nb rf r s vs incl s.path s.choices lv →
+      CovFrames n nb rf r { s with op := op', sc := sc', skipDeage := b } vs incl s.path s.choices lv) ∧
+    (∀ (st sz : Nat) (ls : List (Nat × Nat)) (c : Nat) (cs : List Nat) (p : Nat) (ps : List Nat) (bo : Disjoint.DS)
+      (op' : OP) (k : Nat), s.choices = c :: cs → s.path = p :: ps → st < c →
+      CovFrames n nb rf r s vs true s.path s.choices ((st, sz) :: ls) →
+      CovFrames n nb rf r { s with choices := (c - 1) :: cs, bestOrbits := bo, op := op', path := k :: ps } vs false
+        (k :: ps) ((c - 1) :: cs) ((st, sz) :: ls)) ∧
+    (∀ (lv : List (Nat × Nat)) (st sz : Nat), (cellL n nb rf r vs s.path.length st).length = sz →
+      CovFrames n nb rf r s vs false s.path s.choices lv →
+      CovFrames n nb rf r { s with choices := (st + sz) :: s.choices, path := sz :: s.path, skipDeage := true } vs true
+        (sz :: s.path) ((st + sz) :: s.choices) ((st, sz) :: lv)) :=
+  ⟨fun _ _ op' sc' b h => cov_congr_op op' sc' b h,
+   fun st sz ls c cs p ps bo op' k hch hpth hst h => cov_split_ok st sz ls s c cs p ps bo op' k hch hpth hst h,
+   fun _ st sz hlen h => cov_push st sz hlen h⟩
+
+/-- coverage at a leaf that is not better than `currentBest` and equal to neither the best nor the first leaf -/
+theorem frame_coverage_leaf_other {n m : Nat} {nb : Nbrs} {rf : Nat} {r : IR.St} (hnb : NbOK nb n) {s s' : LS}
+    {lv : List (Nat × Nat)} {vs : List Nat} (hc : Core n s) (hl : LevelsOK s.op s.path s.choices lv)
+    (hw : WalkNodev n nb rf r vs lv s) (hleaf : s.op.binDividers.len = n) (hvc : VClean nb s.op) (hspl : s.op.spl = n)
+    (hc1 : (CanonF.compare s.op.value.toList s.currentBest.toList == 1 || s.count + 1 == 1) = false)
+    (hc0 : (CanonF.compare s.op.value.toList s.currentBest.toList == 0) = false)
+    (hcf : (CanonF.compare s.op.value.toList s.firstLeaf.toList == 0) = false)
+    (h : leafNode n m s = .ok s')
+    (hcov : CovFrames n nb rf r s vs false s.path s.choices lv) :
+    s'.path = s.path ∧ s'.choices = s.choices ∧ s'.op = s.op ∧ CovFrames n nb rf r s' vs true s.path s.choices lv :=
+  cov_leaf_other hnb hc hl hw hleaf hvc hspl hc1 hc0 hcf h hcov
+
+/-- coverage at a leaf that is better than `currentBest` (not the first leaf): every coverage fact survives the larger
+`currentBest`, and the leaf itself is covered -/
+theorem frame_coverage_leaf_accept {n m : Nat} {nb : Nbrs} {rf : Nat} {r : IR.St} (hnb : NbOK nb n)
+    (hlenm : ∀ o : List Nat, o.Perm (List.range n) → (certPos nb o n).length = m) {s s' : LS}
+    {lv : List (Nat × Nat)} {vs : List Nat} (hc : Core n s) (hl : LevelsOK s.op s.path s.choices lv)
+    (hw : WalkNodev n nb rf r vs lv s) (hleaf : s.op.binDividers.len = n) (hvc : VClean nb s.op) (hspl : s.op.spl = n)
+    (hb : BestOK m s) (hg : GInv n m nb s)
+    (hcmp : CanonF.compare s.op.value.toList s.currentBest.toList = 1) (hcnt : 0 < s.count)
+    (h : leafNode n m s = .ok s')
+    (hcov : CovFrames n nb rf r s vs false s.path s.choices lv) :
+    s'.path = s.path ∧ s'.choices = s.choices ∧ s'.op = s.op ∧ s'.currentBest.toList = s.op.value.toList ∧
+      CovFrames n nb rf r s' vs true s.path s.choices lv :=
+  cov_leaf_accept hnb hlenm hc hl hw hleaf hvc hspl hb hg hcmp hcnt h hcov
+
+/-- `backjump_sound` at state level: the child of the common ancestor on the current path is complete because the child on
+the path of the (equal-certificate) reference leaf is -/
+theorem backjump_child_sound {n : Nat} {nb : Nbrs} {rf : Nat} {r : IR.St} (hnb : NbOK nb n)
+    (hA : IR.InvA (irG n nb) r) (hD : IR.InvD (irG n nb) r) {best : List Nat}
+    {vs vsR : List Nat} {o1 o2 : List Nat} {i st b c : Nat}
+    (hp1 : IR.IsPath (irG n nb) rf r vsR) (ht1 : IR.target (irG n nb) (IR.nodeAt (irG n nb) rf r vsR) = none)
+    (hc1 : (IR.nodeAt (irG n nb) rf r vsR).c = IR.tab n (fun v => o1.idxOf v)) (ho1 : o1.Perm (List.range n))
+    (hp2 : IR.IsPath (irG n nb) rf r vs) (ht2 : IR.target (irG n nb) (IR.nodeAt (irG n nb) rf r vs) = none)
+    (hc2 : (IR.nodeAt (irG n nb) rf r vs).c = IR.tab n (fun v => o2.idxOf v)) (ho2 : o2.Perm (List.range n))
+    (hcert : certPos nb o1 n = certPos nb o2 n)
+    (hcommon : vsR.take i = vs.take i) (hb : vsR[i]? = some b) (hcv : vs[i]? = some c)
+    (hst : IR.target (irG n nb) (nodeL n nb rf r vs i) = some st)
+    (hcomp : Complete n nb rf best (IR.childSt (irG n nb) rf (nodeL n nb rf r vs i) st b)) :
+    Complete n nb rf best (IR.childSt (irG n nb) rf (nodeL n nb rf r vs i) st c) :=
+  backjump_child_complete hnb hA hD hp1 ht1 hc1 ho1 hp2 ht2 hc2 ho2 hcert hcommon hb hcv hst hcomp
+
+/-- `canon_eq_of_complete_partial` — the last step of `canonF_eq_IR_canon`: if the root of the unpruned tree is covered
+w.r.t. the certificate of the returned leaf (what `CovFrames` yields when the stack is empty, `frame_coverage_pop`), the
+returned certificate IS the canonical certificate of the IR model. PARTIAL: the hypothesis `hcomp` is not yet derived
+for the search (missing: the layer supplying the orbit hypotheses of the coverage transitions, see notes/C01F.md). -/
+theorem canon_eq_of_complete_partial {g : G} (hg : g.WF) {s0 : IR.St} (hw : s0.work ≠ []) {p : List Nat}
+    (hp : p.Perm (List.range g.n))
+    (hleaf : IR.tab g.n (fun v => p.idxOf v) ∈ IR.allLeaves (IR.ofSpec g) s0)
+    (hcomp : Complete g.n (nbrsOf g) (IR.rfuel (IR.ofSpec g)) (certPos (nbrsOf g) p g.n)
+      (IR.refine (IR.ofSpec g) (IR.rfuel (IR.ofSpec g)) s0)) :
+    certPos (nbrsOf g) p g.n = IR.canonCertFrom (IR.ofSpec g) s0 :=
+  canon_eq_of_complete hg hw hp hleaf hcomp
+
+/-- `recorded_generator_fixes_ancestors`: the generator recorded when the current leaf (path `vs`, order `o2`) equals the
+reference leaf (path `vsR`, order `o1`) preserves the colouring of every common ancestor `nodeL vs L` of the two leaves —
+the source of the orbit hypotheses (`hE1`, `hS`) of the coverage transitions -/
+theorem recorded_generator_fixes_ancestors {n : Nat} {nb : Nbrs} {rf : Nat} {r : IR.St} (hnb : NbOK nb n)
+    (hA : IR.InvA (irG n nb) r) (hD : IR.InvD (irG n nb) r) {vs vsR : List Nat} {o1 o2 : List Nat} {L : Nat}
+    (hp1 : IR.IsPath (irG n nb) rf r vsR) (hc1 : (IR.nodeAt (irG n nb) rf r vsR).c = IR.tab n (fun v => o1.idxOf v))
+    (ho1 : o1.Perm (List.range n))
+    (hp2 : IR.IsPath (irG n nb) rf r vs) (hc2 : (IR.nodeAt (irG n nb) rf r vs).c = IR.tab n (fun v => o2.idxOf v))
+    (ho2 : o2.Perm (List.range n)) (hcommon : vsR.take L = vs.take L) :
+    ∀ u, u < n → IR.col (nodeL n nb rf r vs L).c ((transport n o1 o2).getD u 0) = IR.col (nodeL n nb rf r vs L).c u :=
+  recorded_gen_preserves hnb hA hD hp1 hc1 ho1 hp2 hc2 ho2 hcommon
+
+/-- index paths determine nodes: two vertex paths whose first `L` steps pick the same indices (`firstLeafPath` /
+`currentBestPath` against `path`) in the target cells agree on their first `L` vertices -/
+theorem index_path_determines_nodes {n : Nat} {nb : Nbrs} {rf : Nat} {r : IR.St} {vs vsR P : List Nat} {L : Nat}
+    (h1 : IdxPath n nb rf r vs P L) (h2 : IdxPath n nb rf r vsR P L) : vs.take L = vsR.take L :=
+  same_prefix_of_idx h1 h2
 
 /-- every leaf below a node refines the colouring of the node monotonically (the hypothesis `hm1`, `hm2` above) -/
 theorem leaf_below_node_mono {n : Nat} {nb : Nbrs} (hnb : NbOK nb n) (rf : Nat) (vs : List Nat) (s : IR.St)
